@@ -25,9 +25,12 @@ VARIABLES
     iso,       \* set of isolation rules [id, res, thr]
     hot,       \* set of hotspot concurrency rules [id, res, idx, key, thr, spec]
     hotc,      \* hotspot rule id -> (value -> in-flight count)
-    foreign    \* TRUE once rules of another family are loaded (they may block as well)
+    foreign,   \* TRUE once rules of another family are loaded (they may block as well)
+    sys,       \* set of system rules [id, metric, thr, strat]                               (C09)
+    sload,     \* injected system load reading  <<num, den>>
+    scpu       \* injected CPU usage reading    <<num, den>>
 
-evars == <<on, cfg, now, nodes, open, iso, hot, hotc, foreign>>
+evars == <<on, cfg, now, nodes, open, iso, hot, hotc, foreign, sys, sload, scpu>>
 
 Lg == cfg.It \div cfg.nt
 SeqToSet(s) == {s[i] : i \in 1..Len(s)}
@@ -77,12 +80,62 @@ Args(ev) == IF "args" \in DOMAIN ev THEN ev.args ELSE <<>>
 Att(ev)  == IF "att" \in DOMAIN ev THEN ev.att ELSE <<>>
 Inb(ev)  == "in" \in DOMAIN ev /\ ev.in
 
+(* ------------------------ system rules (C09) -------------------------- *)
+SysValid(r) ==
+    /\ r.thr[1] >= 0
+    /\ r.metric = "cpu" => r.thr[1] <= 100 * r.thr[2]
+    /\ r.metric = "load" => r.thr[1] <= r.thr[2]
+
+\* the inbound node as the system slot reads it at time t
+InbWin(t) == LET nd == Node(INB) IN
+    [ lo |-> Start(Lg, t) - cfg.I + Lg, hi |-> Start(Lg, t), g |-> nd.g, conc |-> nd.conc ]
+MaxBucket(g, lo, hi, kind) ==
+    FoldSet(LAMBDA b, acc : IF g[b][kind] > acc THEN g[b][kind] ELSE acc, 0, GBuckets(g, lo, hi))
+
+\* BBR lets the request through unless more than one request is in flight and their number
+\* exceeds the estimated capacity  max-completed-per-second * min-rt / 1000
+BbrOverloaded(t) ==
+    LET w == InbWin(t)
+        maxb == MaxBucket(w.g, w.lo, w.hi, "complete")
+        minrt == GMin(w.g, w.lo, w.hi)
+    IN  w.conc > 1 /\ w.conc * cfg.I > maxb * cfg.n * minrt
+
+Gt(a, b) == a[1] * b[2] > b[1] * a[2]       \* rationals with positive denominators
+
+SysTrip(r, t) ==
+    LET w == InbWin(t)
+        pass == GSum(w.g, w.lo, w.hi, "pass")
+        comp == GSum(w.g, w.lo, w.hi, "complete")
+        rt   == GSum(w.g, w.lo, w.hi, "rt")
+    IN  CASE r.metric = "qps"  -> pass * 1000 * r.thr[2] >= r.thr[1] * cfg.I
+          [] r.metric = "conc" -> w.conc * r.thr[2] >= r.thr[1]
+          [] r.metric = "rt"   -> IF comp = 0 THEN r.thr[1] = 0 ELSE rt * r.thr[2] >= r.thr[1] * comp
+          [] r.metric = "load" -> Gt(sload, r.thr) /\ (r.strat # "bbr" \/ BbrOverloaded(t))
+          [] r.metric = "cpu"  -> Gt(scpu, r.thr) /\ (r.strat # "bbr" \/ BbrOverloaded(t))
+
+\* the value the rejection must carry, times 1000 (rt: [lo, hi] because of rounding)
+SysSnapOK(r, t, snap) ==
+    LET w == InbWin(t)
+        pass == GSum(w.g, w.lo, w.hi, "pass")
+        comp == GSum(w.g, w.lo, w.hi, "complete")
+        rt   == GSum(w.g, w.lo, w.hi, "rt")
+    IN  CASE r.metric = "qps"  -> snap * cfg.I = pass * 1000 * 1000
+          [] r.metric = "conc" -> snap = w.conc * 1000
+          [] r.metric = "rt"   -> IF comp = 0 THEN snap = 0
+                                  ELSE snap * comp >= rt * 1000 - comp /\ snap * comp <= rt * 1000 + comp
+          [] r.metric = "load" -> snap * sload[2] = sload[1] * 1000
+          [] r.metric = "cpu"  -> snap * scpu[2] = scpu[1] * 1000
+
+SysBad(ev) == IF Inb(ev) THEN {r \in sys : SysTrip(r, ev.t)} ELSE {}
+
 (* The allowed outcomes of an entry request: a set of [pass, bt, rules].  *)
 Outcomes(ev) ==
     LET ib == IsoBad(ev.res, ev.n)
         hm == HotMust(ev.res, ev.n, Args(ev), Att(ev))
         hy == HotMay(ev.res, ev.n, Args(ev), Att(ev))
-    IN  (IF ib = {} /\ hm = {} THEN {[pass |-> TRUE, bt |-> "", rules |-> {}]} ELSE {})
+        sb == SysBad(ev)
+    IN  (IF ib = {} /\ hm = {} /\ sb = {} THEN {[pass |-> TRUE, bt |-> "", rules |-> {}]} ELSE {})
+        \cup (IF sb # {} THEN {[pass |-> FALSE, bt |-> "system", rules |-> {r.id : r \in sb}]} ELSE {})
         \cup (IF ib # {} THEN {[pass |-> FALSE, bt |-> "isolation", rules |-> {r.id : r \in ib}]} ELSE {})
         \cup (IF hy # {} THEN {[pass |-> FALSE, bt |-> "hotspot", rules |-> {r.id : r \in hy}]} ELSE {})
         \cup (IF foreign THEN {[pass |-> FALSE, bt |-> "foreign", rules |-> {}]} ELSE {})
@@ -92,20 +145,24 @@ Reset(ev) ==
     /\ ev.e = "reset"
     /\ on' = TRUE /\ cfg' = ev.cfg /\ now' = ev.t
     /\ nodes' = <<>> /\ open' = <<>> /\ iso' = {} /\ hot' = {} /\ hotc' = <<>> /\ foreign' = FALSE
+    /\ sys' = {} /\ sload' = <<0, 1>> /\ scpu' = <<0, 1>>
 
 Load(ev) ==
     /\ ev.e = "load" /\ on /\ ev.t >= now /\ now' = ev.t
     /\ CASE ev.fam = "iso" /\ ev.op = "all" ->
               /\ iso' = {r \in SeqToSet(ev.rules) : IsoValid(r)}
-              /\ UNCHANGED <<hot, hotc, foreign>>
+              /\ UNCHANGED <<hot, hotc, foreign, sys>>
+         [] ev.fam = "sys" /\ ev.op = "all" ->
+              /\ sys' = {r \in SeqToSet(ev.rules) : SysValid(r)}
+              /\ UNCHANGED <<iso, hot, hotc, foreign>>
          [] ev.fam = "hot" /\ ev.op = "all" ->
               /\ hot' = {r \in SeqToSet(ev.rules) : HotValid(r) /\ r.metric = "conc"}
               /\ hotc' = [id \in {r.id : r \in hot'} |-> IF id \in DOMAIN hotc THEN hotc[id] ELSE <<>>]
               /\ foreign' = (foreign \/ \E r \in SeqToSet(ev.rules) : r.metric # "conc")
-              /\ UNCHANGED iso
-         [] OTHER -> foreign' = TRUE /\ UNCHANGED <<iso, hot, hotc>>
+              /\ UNCHANGED <<iso, sys>>
+         [] OTHER -> foreign' = TRUE /\ UNCHANGED <<iso, hot, hotc, sys>>
     \* loading a flow rule may create the resource's node; an empty node reads like no node
-    /\ UNCHANGED <<on, cfg, nodes, open>>
+    /\ UNCHANGED <<on, cfg, nodes, open, sload, scpu>>
 
 \* o is the outcome taken (one of Outcomes(ev))
 Enter(ev, o) ==
@@ -128,7 +185,7 @@ Enter(ev, o) ==
                           THEN (vals[id] :> (Cnt(CHOOSE r \in hot : r.id = id, vals[id]) + 1)) @@ hotc[id]
                           ELSE hotc[id]]
                   ELSE hotc
-    /\ UNCHANGED <<on, cfg, iso, hot, foreign>>
+    /\ UNCHANGED <<on, cfg, iso, hot, foreign, sys, sload, scpu>>
 
 Exit(ev) ==
     /\ ev.e = "exit" /\ on /\ ev.t >= now /\ now' = ev.t
@@ -144,15 +201,18 @@ Exit(ev) ==
                               THEN [hotc[id] EXCEPT ![en.vals[id]] = @ - 1]
                               ELSE hotc[id]]
        ELSE UNCHANGED <<nodes, open, hotc>>
-    /\ UNCHANGED <<on, cfg, iso, hot, foreign>>
+    /\ UNCHANGED <<on, cfg, iso, hot, foreign, sys, sload, scpu>>
 
 Adv(ev) ==
     /\ ev.e \in {"adv", "sysload", "syscpu"} /\ on /\ ev.t >= now /\ now' = ev.t
-    /\ UNCHANGED <<on, cfg, nodes, open, iso, hot, hotc, foreign>>
+    /\ sload' = IF ev.e = "sysload" THEN ev.v ELSE sload
+    /\ scpu' = IF ev.e = "syscpu" THEN ev.v ELSE scpu
+    /\ UNCHANGED <<on, cfg, nodes, open, iso, hot, hotc, foreign, sys>>
 
 EntryInit ==
     /\ on = FALSE /\ cfg = [nt |-> 20, It |-> 10000, n |-> 2, I |-> 1000] /\ now = 0
     /\ nodes = <<>> /\ open = <<>> /\ iso = {} /\ hot = {} /\ hotc = <<>> /\ foreign = FALSE
+    /\ sys = {} /\ sload = <<0, 1>> /\ scpu = <<0, 1>>
 
 (* ----------------------------- invariants ----------------------------- *)
 OpenOn(name) == {i \in DOMAIN open : open[i].res = name}
